@@ -6,7 +6,7 @@ use self::attributes::{ContainerAttributes, FieldAttributes, VariantAttributes, 
 use crate::util::{inner_Option, extract_doc_comment, extract_doc_attrs};
 use proc_macro2::{TokenStream, Span};
 use quote::quote;
-use syn::{Item, ItemFn, ItemStruct, ItemEnum, Fields, FieldsNamed, FieldsUnnamed, Variant, Visibility, Ident, LitInt, LitStr, Type, Path, token, Token, punctuated::Punctuated};
+use syn::{ext::IdentExt, Item, ItemFn, ItemStruct, ItemEnum, Fields, FieldsNamed, FieldsUnnamed, Variant, Visibility, Ident, LitInt, LitStr, Type, Path, token, Token, punctuated::Punctuated};
 
 pub(super) fn derive_schema(input: TokenStream) -> syn::Result<TokenStream> {
     return match syn::parse2::<Item>(input)? {
@@ -139,16 +139,18 @@ pub(super) fn derive_schema(input: TokenStream) -> syn::Result<TokenStream> {
                         continue
                     }
 
-                    let mut ident = f.ident.clone().unwrap(/* Named */);
+                    /* the name is kept as a string: what serde writes need not be a Rust identifier (`kebab-case`, `rename = "user-name"`) */
+                    let ident = f.ident.as_ref().unwrap(/* Named */);
+                    let (mut name, mut name_span) = (ident.unraw().to_string(), ident.span());
                     if let Some((span, case)) = rename_all.value()? {
-                        ident = Ident::new(&case.apply_to_field(&ident.to_string()), span);
+                        (name, name_span) = (case.apply_to_field(&name), span);
                     }
                     if let Some((span, rename)) = field_attrs.serde.rename.value()? {
-                        ident = Ident::new(&rename, span);
+                        (name, name_span) = (rename.clone(), span);
                     }
 
                     if let Some(schema_with) = &field_attrs.openapi.schema_with {
-                        let property_name = LitStr::new(&ident.to_string(), ident.span());
+                        let property_name = LitStr::new(&name, name_span);
                         let schema_with = syn::parse_str::<Path>(schema_with)?;
                         properties.push(quote! {
                             schema = schema.property(#property_name, #schema_with());
@@ -197,7 +199,7 @@ pub(super) fn derive_schema(input: TokenStream) -> syn::Result<TokenStream> {
                             }
                         })
                     } else {
-                        let property_name = LitStr::new(&ident.to_string(), ident.span());
+                        let property_name = LitStr::new(&name, name_span);
 
                         properties.push(if is_optional_field {quote! {
                             schema = schema.optional(#property_name, #property_schema);
@@ -320,15 +322,15 @@ pub(super) fn derive_schema(input: TokenStream) -> syn::Result<TokenStream> {
                 variant_names.push({
                     let variant_attrs = VariantAttributes::new(&v.attrs)?;
                     
-                    let mut ident = v.ident.clone();
+                    let (mut name, mut name_span) = (v.ident.unraw().to_string(), v.ident.span());
                     if let Some((span, case)) = container_attrs.serde.rename_all.value()? {
-                        ident = Ident::new(&case.apply_to_variant(&ident.to_string()), span);
+                        (name, name_span) = (case.apply_to_variant(&name), span);
                     }
-                    if let Some((span, name)) = variant_attrs.serde.rename.value()? {
-                        ident = Ident::new(&*name, span);
+                    if let Some((span, rename)) = variant_attrs.serde.rename.value()? {
+                        (name, name_span) = (rename.clone(), span);
                     };
                     
-                    LitStr::new(&ident.to_string(), ident.span())
+                    LitStr::new(&name, name_span)
                 });
             }
             
@@ -352,14 +354,14 @@ pub(super) fn derive_schema(input: TokenStream) -> syn::Result<TokenStream> {
                 }
 
                 let tag = {
-                    let mut ident = v.ident;
+                    let (mut name, mut name_span) = (v.ident.unraw().to_string(), v.ident.span());
                     if let Some((span, case)) = container_attrs.serde.rename_all.value()? {
-                        ident = Ident::new(&case.apply_to_variant(&ident.to_string()), span);
+                        (name, name_span) = (case.apply_to_variant(&name), span);
                     }
-                    if let Some((span, name)) = variant_attrs.serde.rename.value()? {
-                        ident = Ident::new(&*name, span);
+                    if let Some((span, rename)) = variant_attrs.serde.rename.value()? {
+                        (name, name_span) = (rename.clone(), span);
                     }
-                    LitStr::new(&ident.to_string(), ident.span())
+                    LitStr::new(&name, name_span)
                 };
 
                 /* fields of a variant follow the variant's `rename_all`, or else the enum's `rename_all_fields` */
